@@ -199,10 +199,11 @@ func (e *Env) Cleanup() {
 func enc(s string) mail.Encoding { return mail.Encoding(s) }
 
 // chunkWriter returns a producer that writes content in chunks and honours a fault.
-func chunkWriter(content []byte, chunk int, fault *Fault, yield func()) func(io.Writer) (int64, error) {
+func chunkWriter(content []byte, chunk int, cfgFault *Fault, yield func()) func(io.Writer) (int64, error) {
 	return func(w io.Writer) (int64, error) {
 		var total int64
 		limit := len(content)
+		fault := cfgFault // per call: a fault that is not armed now may be armed for the next render
 		if fault != nil && fault.Gate != nil && atomic.LoadInt32(fault.Gate) == 0 {
 			fault = nil
 		}
